@@ -118,6 +118,30 @@ class Repo:
         self.digest = h.hexdigest()[:16]
 
     def _load(self, overrides, h):
+        # first pass: every module's raw syntax tree, for the repository-wide summaries the normaliser needs
+        raw = []
+        srcs = {}
+        for dp, dn, fn in sorted(os.walk(self.pkg)):
+            dn.sort()
+            if "__pycache__" in dp:
+                continue
+            for f in sorted(fn):
+                if f.endswith(".py"):
+                    path = os.path.join(dp, f)
+                    name = os.path.relpath(path, self.pkg)[:-3]
+                    src_ = overrides.get(name)
+                    if src_ is None:
+                        with open(path, encoding="utf-8") as fh:
+                            src_ = fh.read()
+                    srcs[name] = src_
+                    try:
+                        with warnings.catch_warnings():
+                            warnings.simplefilter("ignore")
+                            raw.append(ast.parse(src_))
+                    except SyntaxError as e:
+                        raise AnalysisError(f"cannot parse {path}: {e}")
+        from . import normalize as _nz
+        _nz.prepare(raw)
         for dp, dn, fn in sorted(os.walk(self.pkg)):
             dn.sort()
             if "__pycache__" in dp:
